@@ -38,5 +38,18 @@ func ZZVerifC18Names() {
 	if err3 != nil {
 		nd.Assert(len(e3.All()) == 0, "C18/names/refused-batch-stores-nothing")
 	}
+	// the caller keeps using (and changing) the map it handed over: what the
+	// environments hold was validated when it was set
+	own := map[string]string{"A": "1"}
+	e4 := NewEnvironments()
+	nd.Assert(e4.SetAll(own) == nil, "C18/names/setall-good")
+	own[k] = "v"
+	own["A"] = "2"
+	all := e4.All()
+	_, leaked := all[k]
+	nd.Assert(!leaked || k == "A", "C18/names/caller-map-not-aliased")
+	nd.Assert(all["A"] == "1" && e4.Get("A") == "1", "C18/names/caller-map-not-aliased")
+	all["B"] = "x" // nor is the returned map the store itself
+	nd.Assert(e4.Get("B") == "", "C18/names/returned-map-not-aliased")
 	nd.Reach("C18/names/end")
 }
